@@ -889,7 +889,35 @@ func c15Retry(c *Ctx, sx *symx.Ctx) {
 	} else {
 		r.Bad("O-2", fk+"#one-load-per-iteration", c.P.Pos(ld.Pos()), "the loop body never returns to its header")
 	}
+	// the back-off may stand at the head of the next attempt instead of the
+	// tail of the failed one: every sleep is then followed by that iteration's
+	// load on all paths (so none follows the last attempt), is skipped on the
+	// first attempt, and waits for the previous attempt's delay
+	sleeps := callsTo(fn, "time.Sleep")
+	headForm := len(sleeps) > 0
+	for _, sl := range sleeps {
+		// the wait comes before the iteration's load: not reachable from the
+		// load without going round the loop head
+		if sl.Block() == ld.Block() || reachAvoidBB(ld.Block(), sl.Block(), nil, map[*ssa.BasicBlock]bool{hdrBlock: true}) {
+			headForm = false
+			continue
+		}
+		// no way from the sleep out of the function, or back to the loop head, but through the load
+		barrier := map[*ssa.BasicBlock]bool{ld.Block(): true}
+		for _, ret := range ssau.ReturnsOf(fn) {
+			if reachAvoidBB(sl.Block(), ret.Block(), nil, barrier) {
+				headForm = false
+			}
+		}
+		if reachAvoidBB(sl.Block(), hdrBlock, nil, barrier) {
+			headForm = false
+		}
+	}
 	for ret, em := range early {
+		if headForm {
+			r.Check(em.Get("load").AtMostOnce(), "O-2", fk+"#exit-from-body:"+exitName(fn, ret), c.P.Pos(ret.Pos()), "an iteration that leaves the loop loaded at most once (its wait, if any, came before its own load)", fmt.Sprintf("leaving iteration: load%v sleep%v", em.Get("load"), em.Get("sleep")))
+			continue
+		}
 		r.Check(em.Get("load").AtMostOnce() && em.Get("sleep").Never(), "O-2", fk+"#exit-from-body:"+exitName(fn, ret), c.P.Pos(ret.Pos()), "an iteration that leaves the loop loaded at most once and did not sleep", fmt.Sprintf("leaving iteration: load%v sleep%v", em.Get("load"), em.Get("sleep")))
 	}
 	// predicate controls leaving the loop
@@ -911,6 +939,42 @@ func c15Retry(c *Ctx, sx *symx.Ctx) {
 	}
 	// sleep only if another attempt follows
 	for _, sl := range callsTo(fn, "time.Sleep") {
+		if headForm {
+			// followed by its own attempt (shown above); not before the first one:
+			// the sleep lies behind an edge that excludes attempt == 1
+			cut := map[[2]int]bool{}
+			for _, iff := range ssau.Ifs(fn) {
+				op, x, y, ok := ssau.CondOf(iff.Cond)
+				if !ok {
+					continue
+				}
+				if y == ssa.Value(ctr) {
+					x, y, op = y, x, ssau.Flip(op)
+				}
+				k, isC := ssau.ConstInt(y)
+				if x != ssa.Value(ctr) || !isC {
+					continue
+				}
+				switch {
+				case (op == token.GTR && k == 1) || (op == token.GEQ && k == 2) || (op == token.NEQ && k == 1):
+					cut[[2]int{iff.Block().Index, 0}] = true
+				case (op == token.LEQ && k == 1) || (op == token.LSS && k == 2) || (op == token.EQL && k == 1):
+					cut[[2]int{iff.Block().Index, 1}] = true
+				}
+			}
+			notFirst := len(cut) > 0 && !reachFromAvoiding(fn, hdrBlock, sl.Block(), cut)
+			r.Check(notFirst, "O-2", fk+"#no-sleep-after-last-attempt", c.P.Pos(sl.Pos()), "Sleep runs only ahead of a further attempt (attempt > 1), never after the last one", "the loop sleeps before the first attempt")
+			dOK := false
+			if dc, ok := sl.Common().Args[0].(*ssa.Call); ok && ssau.CallName(dc) == drMeth+"calculateDelay" {
+				if bo, ok := dc.Common().Args[1].(*ssa.BinOp); ok && bo.Op == token.SUB && bo.X == ssa.Value(ctr) {
+					if one, ok := ssau.ConstInt(bo.Y); ok && one == 1 {
+						dOK = true
+					}
+				}
+			}
+			r.Check(dOK, "O-2", fk+"#sleeps-calculated-delay", c.P.Pos(sl.Pos()), "Sleep(calculateDelay(attempt-1)): the delay of the attempt that failed", "the wait is not calculateDelay of the failed attempt: "+f.Plain(sl.Common().Args[0]))
+			continue
+		}
 		guarded := false
 		for _, m := range maxExprs {
 			if bf.LT(ctr, m, true, sl.Block()) {
@@ -967,6 +1031,11 @@ func c15Retry(c *Ctx, sx *symx.Ctx) {
 		default:
 			// error value must be provably non-nil: every phi input is the load's error on its failure side, never the nil initial value
 			nonNil, why := c15NonNil(fn, ev, ld)
+			if !nonNil && c15FirstIterationCertain(fn, f, ctr) {
+				// the initial nil cannot reach this exit: the loop is entered with
+				// MaxAttempts >= 1 established, so its body runs at least once
+				nonNil, why = c15NonNilAfterFirst(fn, ev, ctr)
+			}
 			r.Check(nonNil, "O-2", key, c.P.Pos(ret.Pos()), "the error returned without a database is never nil", why)
 		}
 	}
@@ -1054,6 +1123,23 @@ func c15Predicate(c *Ctx) {
 	ef.types(fn.Params[1], ts, 0)
 	r.Analysed["error_types_reaching_shouldRetry"] = ts.list()
 	tests := classTests(c, fn)
+	// shouldRetry(err) == !isPermanent(err): the classes are recognised by the
+	// helper, whose positive outcome then returns true
+	judge, refuse := fn, false
+	if rets := ssau.ReturnsOf(fn); len(rets) == 1 {
+		if u, ok := rets[0].Results[0].(*ssa.UnOp); ok && u.Op == token.NOT {
+			if hc, ok := u.X.(*ssa.Call); ok {
+				if h := hc.Common().StaticCallee(); h != nil && h.Blocks != nil && c.P.IsRepoFunc(h) {
+					for _, a := range hc.Common().Args {
+						if a == ssa.Value(fn.Params[1]) {
+							judge, refuse = h, true
+							tests = classTests(c, h)
+						}
+					}
+				}
+			}
+		}
+	}
 	for _, class := range []string{"notexist", "permission"} {
 		key := fk + "#class:" + class
 		var eff, ineff []errClassTest
@@ -1061,7 +1147,7 @@ func c15Predicate(c *Ctx) {
 			if t.class != class {
 				continue
 			}
-			if t.effective && condTrueReturns(fn, t.cond, false) {
+			if t.effective && condTrueReturns(judge, t.cond, refuse) {
 				eff = append(eff, t)
 			} else if !t.effective {
 				ineff = append(ineff, t)
@@ -1360,4 +1446,105 @@ func c15DatabaseOf(c *Ctx, v ssa.Value, l loadCall) bool {
 		}
 	}
 	return false
+}
+
+// c15FirstIterationCertain: on entry to the loop of the attempt counter the
+// bound it is compared with is known to be at least 1 (an earlier exit took
+// the other case), and the loop is left from its head only on counter > bound:
+// the body runs at least once.
+func c15FirstIterationCertain(fn *ssa.Function, f *symx.Fn, ctr *ssa.Phi) bool {
+	hdr := ctr.Block()
+	iff, ok := hdr.Instrs[len(hdr.Instrs)-1].(*ssa.If)
+	if !ok {
+		return false
+	}
+	op, x, y, ok := ssau.CondOf(iff.Cond)
+	if !ok {
+		return false
+	}
+	if y == ssa.Value(ctr) {
+		x, y, op = y, x, ssau.Flip(op)
+	}
+	if x != ssa.Value(ctr) || op != token.LEQ {
+		return false
+	}
+	q := interval.New(f)
+	for i, e := range ctr.Edges {
+		if k, isC := ssau.ConstInt(e); isC && k == 1 {
+			iv := q.At(y, hdr.Preds[i])
+			if iv.LoOK && iv.Lo >= 1 {
+				return true
+			}
+		}
+	}
+	return false
+}
+
+// c15NonNilAfterFirst: like c15NonNil, with the initial value of the
+// loop-carried error variable (the edge into the loop head from outside)
+// left out: it cannot reach an exit when the body runs at least once.
+func c15NonNilAfterFirst(fn *ssa.Function, ev ssa.Value, ctr *ssa.Phi) (bool, string) {
+	hdr := ctr.Block()
+	var nonNil func(v ssa.Value, pred, blk *ssa.BasicBlock, seen map[ssa.Value]bool) (bool, string)
+	nonNil = func(v ssa.Value, pred, blk *ssa.BasicBlock, seen map[ssa.Value]bool) (bool, string) {
+		if ssau.IsNilConst(v) {
+			return false, "the returned error may be the nil constant"
+		}
+		switch x := v.(type) {
+		case *ssa.MakeInterface:
+			return true, ""
+		case *ssa.Call:
+			if errorConstructor(x, 0) {
+				return true, ""
+			}
+		}
+		_, fail := nilTests(v)
+		if len(fail) > 0 && pred != nil {
+			for k, sc := range pred.Succs {
+				if sc == blk && fail[[2]int{pred.Index, k}] {
+					return true, ""
+				}
+			}
+			if !ssau.ReachableAvoidingEdges(fn, pred, fail) {
+				return true, ""
+			}
+		}
+		if phi, ok := v.(*ssa.Phi); ok {
+			if seen[v] {
+				return true, ""
+			}
+			seen[v] = true
+			for i, e := range phi.Edges {
+				p := phi.Block().Preds[i]
+				// the entry edge of the loop head: the initial value
+				if phi.Block() == hdr && !ssau.Reachable(hdr, p, nil) && p != hdr {
+					continue
+				}
+				if ok, why := nonNil(e, p, phi.Block(), seen); !ok {
+					return false, why
+				}
+			}
+			return true, ""
+		}
+		return false, "the returned error may be nil: " + v.Name()
+	}
+	for _, ret := range ssau.ReturnsOf(fn) {
+		if ssau.ResultValue(ret, 1) != ev {
+			continue
+		}
+		blk := ret.Block()
+		if phi, ok := ev.(*ssa.Phi); ok && phi.Block() == blk {
+			return nonNil(ev, nil, blk, map[ssa.Value]bool{})
+		}
+		if len(blk.Preds) == 0 {
+			return nonNil(ev, nil, blk, map[ssa.Value]bool{})
+		}
+		for _, p := range blk.Preds {
+			if ok, why := nonNil(ev, p, blk, map[ssa.Value]bool{}); !ok {
+				return false, why
+			}
+		}
+		return true, ""
+	}
+	return false, "return not found"
 }
